@@ -1018,6 +1018,11 @@ func (ds *AnySource) ChangeTriggerState(state *FullTriggerState) error {
 			return fmt.Errorf("channelIndex %v is not in [0, ds.nchan %v)", channelIndex, ds.nchan)
 		}
 	}
+	for _, channelIndex := range state.ChannelIndices { // all named channels accept the state, or none is changed
+		if err := ds.processors[channelIndex].triggerStateAcceptable(state.TriggerState); err != nil {
+			return err
+		}
+	}
 	for _, channelIndex := range state.ChannelIndices {
 		dsp := ds.processors[channelIndex]
 		if err := dsp.ConfigureTrigger(state.TriggerState); err != nil {
@@ -1038,6 +1043,11 @@ func (ds *AnySource) ConfigurePulseLengths(nsamp, npre int) error {
 		nsamp < 1 || // require at least 1 sample
 		nsamp < npre+1 { // require at least one post trigger sample
 		return fmt.Errorf("ConfigurePulseLengths nsamp %v, npre %v are invalid", nsamp, npre)
+	}
+	for _, dsp := range ds.processors { // all channels accept the lengths, or none is changed
+		if err := dsp.pulseLengthsAcceptable(nsamp, npre); err != nil {
+			return err
+		}
 	}
 	for _, dsp := range ds.processors {
 		if err := dsp.ConfigurePulseLengths(nsamp, npre); err != nil {
